@@ -83,3 +83,149 @@ Example c01_ex :
                [(NoFault, OSub 1 [] false); (NoFault, OPub 1 7 false); (FailAt 2, OPub 1 8 false); (NoFault, OPub 1 9 false)] in
   map (fun o => out_seqs o) (snd r) = [[]; [1; 1; 1]; []; [2; 2; 2]] /\ t_seqid (st (fst r)) = 2.
 Proof. vm_compute. split; reflexivity. Qed.
+
+(* ================================================================== *)
+(* Load paths of ALL topic kinds (server/init_topic.go) and the numbering of
+   peer-to-peer and 'sys' topics: model Sys/TopicLoad.v.  Same quantifier: every
+   history of requests (sub / leave / leave+unsub / pub / get data / get desc /
+   idle unload / restart) with a failing or crashing adapter call at any position. *)
+From Coq Require Import Lia.
+From Tinode Require Import Sys.TopicLoad Sys.TopicLoadProofs.
+
+Section C01Load.
+Variable k : lkind.                    (* peer-to-peer or 'sys' *)
+Variable sm : sessmap.                 (* any assignment of sessions to users *)
+Variable roots : list N.               (* any set of root users *)
+Variable ua ub : N.                    (* the two parties of the p2p topic *)
+
+(* After ANY successful load - initTopicP2P with both subscriptions / with one subscription
+   missing or soft-deleted (recreated) / of a brand-new topic, initTopicGrp, initTopicSys -
+   lastID is the seqid of the stored topic row, which the load does not change.  ('me' and
+   'fnd' carry no messages: their lastID and delID stay 0, init_me_fnd_ok.) *)
+Theorem c01_load_restores_lastid : forall kd f s n u1 u2 s' c n' ns,
+  init_topic kd f s n u1 u2 = LOk s' c n' ns -> carries_messages kd = true ->
+  l_lastid c = t_seqid s' /\ (t_exists s = true -> t_seqid s' = t_seqid s).
+Proof. exact load_restores_lastid. Qed.
+
+(* the same on the group model's own load function *)
+Theorem c01_load_grp : forall f s n n1 c,
+  try_load f s n = (n1, inl c) -> c_lastid c = t_seqid s /\ c_delid c = t_delid s.
+Proof. intros f s n n1 c H. apply try_load_cases in H. subst c. split; reflexivity. Qed.
+
+(* "delID is restored from the stored delid by every load": refuted by initTopicSys, which
+   never assigns t.delID; true for every other kind. *)
+Definition c01_load_restores_delid_statement : Prop := forall kd f s n u1 u2 s' c n' ns,
+  init_topic kd f s n u1 u2 = LOk s' c n' ns -> carries_messages kd = true -> l_delid c = t_delid s'.
+Theorem c01_load_restores_delid_refuted : ~ c01_load_restores_delid_statement.
+Proof.
+  intros H.
+  specialize (H KSys NoFault (mkStore true 5 3 0 0 0 [] [] [] []) 0%nat 0%N 0%N
+                (mkStore true 5 3 0 0 0 [] [] [] []) (mkLC 5 0 [] []) 2%nat false eq_refl eq_refl).
+  vm_compute in H. discriminate.
+Qed.
+Theorem c01_load_restores_delid_partial : forall kd f s n u1 u2 s' c n' ns,
+  init_topic kd f s n u1 u2 = LOk s' c n' ns -> carries_messages kd = true -> kd <> KSys ->
+  l_delid c = t_delid s' /\ (t_exists s = true -> t_delid s' = t_delid s).
+Proof. exact load_restores_delid. Qed.
+
+(* In every reachable state of a p2p / sys history: stored numbers are unique and lie in
+   1..seqid, a topic row that does not exist (p2p topic deleted by its last unsubscribe) has
+   no messages and mark 0, and while loaded lastID <= seqid <= lastID+1 with every stored
+   number <= lastID.  [boot] = what a fresh process holds (nothing; 'sys' loaded by the hub). *)
+Theorem c01_kinds_invariant : forall s h, sinv s ->
+  linv (fst (lrun k sm roots ua ub (mkLS s (boot k s) 0) h)).
+Proof. intros s h S. apply lrun_inv. split; [exact S|apply boot_inv; exact S]. Qed.
+
+(* publish on a p2p / sys topic: numbered lastID+1, acknowledged, stored, broadcast with that
+   number - or nothing is numbered and one error is returned (a failed save consumes nothing) *)
+Theorem c01_kinds_publish : forall f s c n sid u content noecho,
+  let h := lpublish k f s c n sid u content noecho in
+  (lh_ca h = c /\ msgs (lh_st h) = msgs s /\ t_exists (lh_st h) = t_exists s /\
+   (t_seqid (lh_st h) = t_seqid s \/ (t_exists s = true /\ t_seqid (lh_st h) = l_lastid c + 1)) /\ lno_ack (lh_out h) /\
+   exists code, lh_out h = [(sid, LCtrl code None)] /\ 400 <= code)
+  \/
+  (l_lastid (lh_ca h) = l_lastid c + 1 /\ t_seqid (lh_st h) = l_lastid c + 1 /\ t_exists (lh_st h) = true /\
+   msgs (lh_st h) = msgs s ++ [mkMsg (l_lastid c + 1) u content 0] /\
+   ~ In (l_lastid c + 1) (seqs s) /\
+   lh_out h = (sid, LCtrl 202 (Some (l_lastid c + 1))) ::
+              lfanout (lh_ca h) (if noecho then sid else 0%N) (LData (l_lastid c + 1) u content)).
+Proof. exact (lpublish_cases k). Qed.
+
+Theorem c01_kinds_copies_agree : forall c skip fr x, In x (lfanout c skip fr) -> snd x = fr.
+Proof. exact lfanout_frames. Qed.
+
+(* no other request acknowledges a number or moves lastID of a loaded topic *)
+Theorem c01_kinds_only_publish_numbers : forall f x o c,
+  x_ca x = Some c -> o <> LRestart ->
+  (forall sid content noecho, o = LPub sid content noecho -> lattached c sid = false /\ k = LP2P) ->
+  all_lout lnonack (snd (lstep k sm roots ua ub f x o)) /\
+  (forall c', x_ca (fst (lstep k sm roots ua ub f x o)) = Some c' -> l_lastid c' = l_lastid c).
+Proof. exact (lstep_nonpub k sm roots ua ub). Qed.
+
+(* every transition from "not loaded" to "loaded" - through whichever branch of the load -
+   and every process start set lastID to the stored mark *)
+Theorem c01_kinds_reload_continues : forall f x o c',
+  x_ca x = None -> x_ca (fst (lstep k sm roots ua ub f x o)) = Some c' ->
+  l_lastid c' = t_seqid (x_st (fst (lstep k sm roots ua ub f x o))).
+Proof. exact (lstep_load_lastid k sm roots ua ub). Qed.
+Theorem c01_kinds_boot_continues : forall s c, boot k s = Some c -> l_lastid c = t_seqid s.
+Proof. exact (boot_lastid k). Qed.
+
+(* Restart / reload / crash: along a history that does not delete the topic row, every number
+   shown to any client is at most the persisted mark at the end of the history - which the
+   next load, by the two theorems above, makes lastID: numbering continues strictly above. *)
+Theorem c01_kinds_restart_above_shown : forall s h, sinv s ->
+  let x0 := mkLS s (boot k s) 0 in
+  keeps_row k sm roots ua ub x0 h ->
+  Forall (lshown_le (t_seqid (x_st (fst (lrun k sm roots ua ub x0 h))))) (snd (lrun k sm roots ua ub x0 h)) /\
+  t_seqid s <= t_seqid (x_st (fst (lrun k sm roots ua ub x0 h))).
+Proof.
+  intros s h S x0 K. apply (lrun_shown k sm roots ua ub h x0); [|exact K].
+  split; [exact S|apply boot_inv; exact S].
+Qed.
+End C01Load.
+
+(* the 'sys' row is never deleted: the statement holds for every sys history *)
+Theorem c01_sys_restart_above_shown : forall sm roots s h, sinv s ->
+  let x0 := mkLS s (boot LSys s) 0 in
+  Forall (lshown_le (t_seqid (x_st (fst (lrun LSys sm roots 0%N 0%N x0 h))))) (snd (lrun LSys sm roots 0%N 0%N x0 h)) /\
+  t_seqid s <= t_seqid (x_st (fst (lrun LSys sm roots 0%N 0%N x0 h))).
+Proof.
+  intros sm roots s h S x0. apply c01_kinds_restart_above_shown; [exact S|apply sys_keeps_row].
+Qed.
+
+Print Assumptions c01_load_restores_lastid.
+Print Assumptions c01_load_grp.
+Print Assumptions c01_load_restores_delid_refuted.
+Print Assumptions c01_load_restores_delid_partial.
+Print Assumptions c01_kinds_invariant.
+Print Assumptions c01_kinds_publish.
+Print Assumptions c01_kinds_copies_agree.
+Print Assumptions c01_kinds_only_publish_numbers.
+Print Assumptions c01_kinds_reload_continues.
+Print Assumptions c01_kinds_boot_continues.
+Print Assumptions c01_kinds_restart_above_shown.
+Print Assumptions c01_sys_restart_above_shown.
+
+(* non-vacuity: a p2p topic with 2 stored messages whose second party deleted the
+   subscription is re-attached by the first party (initTopicP2P recreates the missing
+   subscription), numbering continues at 3; both leave, the topic is unloaded, the second
+   party re-attaches, a publish whose MessageSave fails consumes nothing, the next is 4 *)
+Example c01_p2p_ex :
+  let s0 := mkStore true 2 0 0 0 0 [mkSub 1 31 31 0 0 0 false; mkSub 2 31 31 0 0 0 true]
+                    [mkMsg 1 1 11 0; mkMsg 2 2 12 0] [] [(1%N, 47%N); (2%N, 47%N)] in
+  let r := lrun LP2P [(1%N, 1%N); (2%N, 2%N)] [] 1%N 2%N (mkLS s0 None 0)
+             [(NoFault, LSub 1 false); (NoFault, LPub 1 7 false); (NoFault, LLeave 1 false); (NoFault, LUnload);
+              (NoFault, LSub 2 false); (FailAt 2, LPub 2 8 false); (NoFault, LPub 2 9 false)] in
+  map lout_seqs (snd r) = [[]; [3; 3]; []; []; []; []; [4; 4]] /\ t_seqid (x_st (fst r)) = 4 /\
+  sinv s0 /\ keeps_row LP2P [(1%N, 1%N); (2%N, 2%N)] [] 1%N 2%N (mkLS s0 None 0)
+             [(NoFault, LSub 1 false); (NoFault, LPub 1 7 false); (NoFault, LLeave 1 false); (NoFault, LUnload)].
+Proof.
+  cbv zeta. split; [vm_compute; reflexivity|]. split; [vm_compute; reflexivity|]. split.
+  - unfold sinv, seqs. cbn [msgs map m_seq t_seqid t_exists]. split; [|split; [|split]].
+    + intros n [<-|[<-|[]]]; lia.
+    + repeat constructor; cbn; intuition discriminate.
+    + lia.
+    + discriminate.
+  - vm_compute. auto.
+Qed.
